@@ -15,7 +15,7 @@ import warnings
 from pathlib import Path
 from typing import Any
 
-from .. import e2e
+from .. import e2e, guard
 from ..common import Hang, Rng, hx, unhx, watchdog
 from ..runner import Check
 from .c17 import parse_sx, unbound_aliased
@@ -98,13 +98,22 @@ KEYS_KEYWORD = ["class", "def", "None", "True", "import", "from", "global", "lam
 KEYS_RESERVED = ["copy", "dict", "json", "schema", "model_config", "model_fields", "validate", "construct", "fields", "__root__", "root", "self", "model_dump", "parse_obj", "Config", "model_validate", "items", "keys", "values"]
 KEYS_UNDERSCORE = ["_p", "__q", "__dunder__", "_", "__", "_1", "p_", "field_", "class_"]
 KEYS_TYPENAME = ["int", "str", "List", "Optional", "Any", "Model", "BaseModel", "Field", "object", "Dict", "Union", "float", "bool"]
-KEY_GROUPS = [KEYS_PLAIN, KEYS_PLAIN, KEYS_PLAIN, KEYS_NONIDENT, KEYS_NONIDENT, KEYS_KEYWORD, KEYS_RESERVED, KEYS_UNDERSCORE, KEYS_TYPENAME, [""]]
+# YAML treats U+0085, U+2028, U+2029 as line breaks (even inside double quotes); the rest are other Unicode
+# separators / format characters; the last ones lie outside the BMP
+KEYS_UNISEP = ["a\u0085b", "a\u2028b", "a\u2029b", "\u0085", "\u2028x", "a\u00a0b", "\ufeffa", "a\u200bb", "a\x0bb", "a\x0cb", "a\x1cb", "a\x1eb", "a\u3000b", "a\u2003b", "a\u202fb", "a\x7fb"]
+KEYS_ASTRAL = ["a\U0001f600b", "\U00010348", "k\U0001d11e"]
+UNISEP_CHARS = set("\u0085\u2028\u2029\u00a0\ufeff\u200b\x0b\x0c\x1c\x1d\x1e\x1f\u3000\u2003\u202f\x7f")
+KEY_GROUPS = [KEYS_PLAIN, KEYS_PLAIN, KEYS_PLAIN, KEYS_NONIDENT, KEYS_NONIDENT, KEYS_KEYWORD, KEYS_RESERVED, KEYS_UNDERSCORE, KEYS_TYPENAME, [""], KEYS_UNISEP, KEYS_ASTRAL]
 STRINGS = ["", "x", "some text", "2020-01-01", "2020-01-01T10:00:00Z", "1", "true", "null", "1.5", "é", "a'b", "line\nbreak", "~", "yes", "0x10", "12:30"]
 
 
 def key_class(k: str) -> str:
     if k == "":
         return "empty"
+    if any(ord(c) > 0xFFFF for c in k):
+        return "astral"
+    if any(c in UNISEP_CHARS for c in k):
+        return "unicode_separator"
     if k in KEYS_RESERVED:
         return "reserved"
     if k in KEYS_TYPENAME:
@@ -189,6 +198,45 @@ def without_v1_root_key(v):
     if isinstance(v, list):
         return [without_v1_root_key(x) for x in v]
     return v
+
+
+STEMS = [("content", "type"), ("x", "id"), ("user", "name"), ("a", "b", "c"), ("first", "last")]
+SEPS = ["-", " ", ".", "_", ":", "/", "+", "~", "@"]
+PARENTS = [("entry", "entries"), ("item", "items"), ("user", "users"), ("tag", "tags"), ("box", "boxes")]
+
+
+def rand_collision_document(rng: Rng) -> dict:
+    """Two (or three) different objects that get the SAME inferred class name — an `entry` object beside
+    an `entries` array (singular naming), or the same key under two parents — whose keys differ only in
+    punctuation, so that they sanitise to the same member name with different wire names."""
+    n_fields = rng.range(1, 3)
+    stems = rng.sample(STEMS, n_fields)
+    n_objs = rng.range(2, 3)
+
+    def obj(j: int) -> dict:
+        out = {}
+        for st in stems:
+            mode = rng.below(5)
+            sep = rng.choice(SEPS) if mode else "_"  # mode 0: identical keys on every side (a legitimate merge)
+            out[sep.join(st)] = rng.choice([1, "x", 2.5, True]) if rng.chance(1, 5) else "v"
+        if rng.chance(1, 4):
+            out["plain"] = j
+        return out
+
+    sing, plur = rng.choice(PARENTS)
+    shape = rng.below(4)
+    objs = [obj(j) for j in range(n_objs)]
+    if shape == 0:
+        doc = {sing: objs[0], plur: objs[1:]}
+    elif shape == 1:
+        doc = {"a": {sing: objs[0]}, "b": {sing: objs[1]}}
+        if n_objs > 2:
+            doc["c"] = {sing: objs[2]}
+    elif shape == 2:
+        doc = {"first": {plur: [objs[0]]}, "second": {plur: objs[1:]}}
+    else:
+        doc = {sing: objs[0], "nested": {sing: objs[1], plur: objs[2:]}}
+    return doc
 
 
 def rand_document(rng: Rng) -> dict:
@@ -312,6 +360,10 @@ def run_raw(source, input_file_type: str, model: str, timeout: float = 20.0) -> 
     return res
 
 
+class NotEquivalent(Exception):
+    pass
+
+
 def encode(doc: dict, fmt: str):
     """the document in the representation `fmt`, together with the input_file_type"""
     if fmt == "json":
@@ -321,7 +373,13 @@ def encode(doc: dict, fmt: str):
     if fmt == "yaml":
         import yaml
 
-        return yaml.safe_dump(doc, allow_unicode=True, sort_keys=False), "yaml"
+        # PyYAML's emitter writes U+0085 raw into a folded quoted scalar that its own reader does not
+        # read back; the text handed over must *be* the document for the stock loader
+        for allow_unicode in (True, False):
+            text = yaml.safe_dump(doc, allow_unicode=allow_unicode, sort_keys=False)
+            if yaml.safe_load(text) == doc:
+                return text, "yaml"
+        raise NotEquivalent("no YAML text of this document is read back as the document by the stock loader")
     if fmt == "dict":
         return doc, "dict"
     if fmt == "csv":
@@ -356,7 +414,10 @@ def keys_differ(doc, dumped, path: str = "$") -> str | None:
 
 def evaluate(doc: dict, fmt: str, kind: str) -> tuple[str, str] | None:
     """None when C16 holds on this case, else (mechanism, observed)."""
-    src, ift = encode(doc, fmt)
+    try:
+        src, ift = encode(doc, fmt)
+    except NotEquivalent:
+        return None
     res = run_raw(src, ift, kind)
     if res.hang:
         return None  # C01's business
@@ -410,14 +471,16 @@ def all_keys(v) -> list[str]:
     return out
 
 
-def shrink(doc: dict, fmt: str, kind: str, mechanism: str, budget_s: float = 8.0) -> dict:
+def shrink(doc: dict, fmt: str, kind: str, mechanism: str, budget_s: float = 8.0, want_cause: str | None = None) -> dict:
     """greedy structural shrinking: drop keys / elements, replace values by simpler ones, while the
     same mechanism still fails"""
     t_end = time.time() + budget_s
 
     def fails(d) -> bool:
+        if not d:
+            return False
         r = evaluate(d, fmt, kind)
-        return r is not None and r[0] == mechanism
+        return r is not None and r[0] == mechanism and (want_cause is None or cause_of(r[0], r[1]) == want_cause)
 
     fresh = [0]
 
@@ -502,7 +565,7 @@ def oracle_case(ck: Check, camp, doc: dict, fmt: str, kind: str) -> None:
             camp.samples.append({"document": doc, "format": fmt, "model": kind})
         return
     mechanism, observed = r
-    small = shrink(doc, fmt, kind, mechanism)
+    small = shrink(doc, fmt, kind, mechanism, want_cause=cause_of(mechanism, observed))
     r2 = evaluate(small, fmt, kind)
     if r2 is not None and r2[0] == mechanism:
         observed = r2[1]
@@ -512,7 +575,8 @@ def oracle_case(ck: Check, camp, doc: dict, fmt: str, kind: str) -> None:
     camp.hit(f"fail:{mechanism}:{trig}")
     ck.fail({"oracle": "sample_accepted", "format": "csv" if fmt == "csv" else "document", "kind": kind, "mechanism": mechanism, "trigger": trig,
              "cause": cause_of(mechanism, observed), "has_all_null_array": has_all_null_array(small),
-             "has_typename_key": any(key_class(k) == "typename" for k in all_keys(small))},
+             "has_typename_key": any(key_class(k) == "typename" for k in all_keys(small)),
+             "has_astral_key": any(key_class(k) == "astral" for k in all_keys(small))},
             {"document": small, "format": fmt, "model": kind, "original_document": doc if small is not doc else None}, observed)
 
 
@@ -527,8 +591,9 @@ def campaign_documents(ck: Check, n: int) -> None:
         for fmt in FORMATS:
             oracle_case(ck, camp, doc, fmt, kind)
     for i in range(n):
-        doc = rand_document(rng)
-        kind = "pydantic_v2.BaseModel" if i % 2 == 0 else "pydantic.BaseModel"
+        doc = rand_collision_document(rng) if i % 4 == 3 else rand_document(rng)
+        camp.hit("family:colliding_class_names" if i % 4 == 3 else "family:general")
+        kind = "pydantic_v2.BaseModel" if (i // 4 if i % 4 == 3 else i) % 2 == 0 else "pydantic.BaseModel"
         if kind == "pydantic.BaseModel":
             doc = without_v1_root_key(doc)
         for k in set(all_keys(doc)):
@@ -562,6 +627,9 @@ def campaign_csv(ck: Check, n: int) -> None:
 
 
 CORPUS = [
+    ({"entry": {"content-type": "v", "x-id": "v"}, "entries": [{"content type": "v", "x.id": "v"}]}, "pydantic_v2.BaseModel"),
+    ({"a": {"item": {"content-type": "v"}}, "b": {"item": {"content type": "v"}}, "c": {"item": {"content-type": "v"}}}, "pydantic.BaseModel"),
+    ({"a\u0085b": 1, "o": {"a\u2028b": "x", "\u2029": [{"\u0085": None}]}}, "pydantic_v2.BaseModel"),
     ({"k3": [{}, [{"k1": 1, "k2": 1}]]}, "pydantic_v2.BaseModel"),
     ({"": "x"}, "pydantic_v2.BaseModel"),
     ({"a": 1, "A": 2}, "pydantic_v2.BaseModel"),
@@ -603,10 +671,10 @@ def run(ck: Check) -> None:
         "the theorem covers the first stage (inferred schema accepts the sample); schema → model → pydantic acceptance is covered by the end-to-end oracle only",
         "pydantic-v1-style output is executed on pydantic.v1 of pydantic 2.13; the key `__root__` (pydantic v1's own wire name for custom roots, unwrapped by its dict()) is not used in documents for v1-style output",
     ]
-    campaign_infer(ck, 600 if quick else 6000)
-    campaign_valid(ck, 600 if quick else 6000)
-    campaign_documents(ck, 160 if quick else 2500)
-    campaign_csv(ck, 50 if quick else 500)
+    guard.campaign(ck, campaign_infer, 600 if quick else 6000)
+    guard.campaign(ck, campaign_valid, 600 if quick else 6000)
+    guard.campaign(ck, campaign_documents, 200 if quick else 2500)
+    guard.campaign(ck, campaign_csv, 50 if quick else 500)
     ck.search_hooks.append(search_keys)
     known_findings(ck)
 
